@@ -148,6 +148,15 @@ func (db *DB) Delete(
 	if db.idx.mu.pointers[endDomain] != end {
 		endDomain, _ = db.idx.unprotectedSearch(end.TimeRange)
 	}
+	// The contents of the pointers may have changed as well: a garbage collection pass
+	// that ran during the offset lookup moves the data of a domain within its file. The
+	// new pointers must be cut from where the data is now.
+	if p := db.idx.mu.pointers[startDomain]; p.TimeRange == start.TimeRange {
+		start = p
+	}
+	if p := db.idx.mu.pointers[endDomain]; p.TimeRange == end.TimeRange {
+		end = p
+	}
 
 	ok, err := validateDelete(startDomain, endDomain, &startOffset, &endOffset, db.idx)
 	if err != nil || !ok {
